@@ -32,6 +32,9 @@ CONTENTS = [
     ("trailing-ws", "a  \n\nb\t\n"),
     ("unicode", "#let s = \"äöü 中文\"\n= Ünï  \n"),
     ("formatted2", "= T\n\nhello\n"),
+    # a source that starts with a byte order mark (U+FEFF is ordinary text to the library; every front-end must keep it)
+    ("bom", "\ufeff= Title\n\nsome   text here\n"),
+    ("bom-erroneous", "\ufeff#f(\n"),
 ]
 BINARY = b"\xff\xfe\x00bad"
 
@@ -41,13 +44,13 @@ DIRS = ["", "x", "x/y", ".hid", ".hid/sub", "dir.typ", "x/.git"]
 
 class Scenario:
     def __init__(self):
-        self.files = {}      # relpath -> ('T', text) | ('B', bytes) | ('D',)
+        self.files = {}      # relpath -> ('T', text) | ('B', bytes) | ('D',) | ('L', target relpath): a symbolic link
         self.steps = []      # invocations
         self.cwd = ""        # sub-directory of the scratch root the CLI runs in
 
     def describe(self):
         return {"cwd": self.cwd,
-                "files": {p: (v[0], v[1] if v[0] == "T" else (v[1].hex() if v[0] == "B" else "")) for p, v in sorted(self.files.items())},
+                "files": {p: (v[0], v[1] if v[0] in ("T", "L") else (v[1].hex() if v[0] == "B" else "")) for p, v in sorted(self.files.items())},
                 "steps": self.steps}
 
 
@@ -70,6 +73,18 @@ def gen_scenario(rng, shapes):
             sc.files[p] = ("B", BINARY)
         else:
             sc.files[p] = ("T", rng.pick(CONTENTS)[1])
+    # symbolic links named *.typ in visible directories: not regular files, so no mode may write through them unless
+    # they are named on the command line (the generator never names them); they exist on disk only, not in the model
+    if rng.chance(1, 4):
+        targets = [p for p, v in sc.files.items() if v[0] in ("T", "B")]
+        vis_dirs = [d for d in dirs if not any(c.startswith(".") for c in d.split("/") if c)]
+        for _ in range(1 + rng.below(2)):
+            if not targets or not vis_dirs:
+                break
+            d = rng.pick(vis_dirs)
+            p = (d + "/" if d else "") + rng.pick(["ln.typ", "lk.typ"])
+            if p not in sc.files:
+                sc.files[p] = ("L", rng.pick(targets))
     if rng.chance(1, 6) and ".hid" in sc.files:
         sc.cwd = ".hid"
     nsteps = 1 if rng.chance(2, 3) else 2 + rng.below(2)
@@ -98,7 +113,7 @@ def gen_invocation(rng, sc, shape):
         inv["column"] = rng.pick([0, 1, 20, 40, 80, 120, 400, rng.below(401)])
     inv["tab"] = None if rng.chance(1, 4) else rng.pick([0, 1, 2, 3, 4, 8, 16])
     inv["reorder"] = rng.chance(1, 3)
-    visible = [rel_to_cwd(sc, p) for p in sc.files]
+    visible = [rel_to_cwd(sc, p) for p, v in sc.files.items() if v[0] != "L"]
     visible = [p for p in visible if p]
     if shape.startswith("files"):
         n = 1 + rng.below(4)
@@ -248,8 +263,14 @@ def materialise(root, sc):
         if v[0] == "D":
             continue
         os.makedirs(os.path.dirname(full), exist_ok=True)
+        if v[0] == "L":
+            continue
         with open(full, "wb") as fh:
             fh.write(v[1].encode("utf-8") if v[0] == "T" else v[1])
+    for p, v in sorted(sc.files.items()):
+        if v[0] == "L":
+            full = os.path.join(root, p)
+            os.symlink(os.path.relpath(os.path.join(root, v[1]), os.path.dirname(full)), full)
 
 
 def reset_mtimes(root):
@@ -267,7 +288,8 @@ def snapshot(root):
             full = os.path.join(dp, n)
             with open(full, "rb") as fh:
                 data = fh.read()
-            snap[os.path.relpath(full, root)] = ("F", data, int(os.stat(full).st_mtime) != PAST)
+            # a symbolic link is kind "L": what it shows (content and modification time of its target)
+            snap[os.path.relpath(full, root)] = ("L" if os.path.islink(full) else "F", data, int(os.stat(full).st_mtime) != PAST)
     return snap
 
 
@@ -285,6 +307,8 @@ def run_scenario(binary, sc, lib):
         for p, v in sc.files.items():
             r = rel_to_cwd(sc, p)
             if r is None:
+                continue
+            if v[0] == "L":
                 continue
             if v[0] == "B":
                 bin_ids[r] = len(bin_ids) + 1
@@ -328,6 +352,10 @@ def run_scenario(binary, sc, lib):
             if set(before) != set(after):
                 dis.append("directory entries changed: %r" % sorted(set(before) ^ set(after))[:3])
             for path, (kind, data, changed) in after.items():
+                if kind == "L":
+                    # a symbolic link exists on disk only; writing through it shows on its target, a regular file
+                    # of the tree that the model does not write (unless the target is itself eligible)
+                    continue
                 if kind != "F":
                     continue
                 m = model["fs"].get(path)
@@ -513,6 +541,8 @@ def run_k8(ck, binary, rng, n, shapes, own_prop, replay=None):
             for p, (k, d, _) in rec["before"].items():
                 if k == "D":
                     actual_before[p] = ("D",)
+                elif k == "L":
+                    continue
                 else:
                     try:
                         actual_before[p] = ("T", d.decode("utf-8"))
@@ -593,4 +623,25 @@ def corpus_scenarios(shapes):
                 res.append(mk(dict(style), [inv("files-inplace", inputs=["w.typ", "n.typ", "i.typ", "x/j.typ"], column=col, tab=tab, reorder=reo)]))
             if "stdin-plain" in shapes:
                 res.append(mk(dict(style), [inv("stdin-plain", stdin=style["x/j.typ"][1], column=col, tab=tab, reorder=reo)]))
+    # symbolic links named *.typ that resolve to ineligible files (hidden, in a hidden directory, not *.typ)
+    linked = dict(base)
+    linked.update({"note.txt": T("#let t  =  5"), "ln.typ": ("L", ".hid/h.typ"), "x/lk.typ": ("L", "note.txt"),
+                   "x/lm.typ": ("L", "x/.hid2/i.typ"), "ld": ("L", ".hid")})
+    if "all" in shapes:
+        res.append(mk(dict(linked), [inv("all"), inv("all")]))
+        res.append(mk(dict(linked), [inv("all", dir="x")]))
+    if "all-check" in shapes:
+        res.append(mk(dict(linked), [inv("all-check")]))
+    # a source that starts with U+FEFF goes through every front-end unchanged
+    bom = {"m.typ": T("\ufeff= T\n\nsome   text\n"), "e.typ": T("\ufeff#f(\n"), "k.typ": T("\ufeffok\n")}
+    if "files-plain" in shapes:
+        res.append(mk(dict(bom), [inv("files-plain", inputs=["m.typ", "e.typ", "k.typ"])]))
+    if "stdin-plain" in shapes:
+        res.append(mk(dict(bom), [inv("stdin-plain", stdin=bom["m.typ"][1]), inv("stdin-plain", stdin=bom["e.typ"][1])]))
+    if "files-inplace" in shapes:
+        res.append(mk(dict(bom), [inv("files-inplace", inputs=["m.typ", "e.typ", "k.typ"])]))
+    if "all" in shapes:
+        res.append(mk(dict(bom), [inv("all")]))
+    if "files-check" in shapes:
+        res.append(mk(dict(bom), [inv("files-check", inputs=["k.typ"]), inv("files-check", inputs=["m.typ"])]))
     return res
